@@ -134,7 +134,7 @@ WellFormedES(n, CL) ==
 (*         (restricted productions: after `return`, before postfix ++/--)  *)
 (*   sb    first token of a statement that follows another in a list       *)
 (*   opt   a statement-terminating `;` (may be left to ASI)                *)
-Tk(ty, lit) == [ty |-> ty, lit |-> lit, nl |-> FALSE, nonl |-> FALSE, sb |-> FALSE, opt |-> FALSE]
+Tk(ty, lit) == [ty |-> ty, lit |-> lit, nl |-> FALSE, nonl |-> FALSE, sb |-> FALSE, opt |-> FALSE, bc |-> FALSE]
 Kw(ty) == Tk(ty, "")
 MarkFirst(ts, f) == IF Len(ts) = 0 THEN ts ELSE [ts EXCEPT ![1] = [@ EXCEPT ![f] = TRUE]]
 
@@ -201,7 +201,7 @@ RenderS(s, red, CL) ==
          \o (IF IsNilNode(s.c[2]) THEN <<>> ELSE <<Kw("ASSIGN")>> \o RenderE(s.c[2], ES_ASSIGN, r, CL)) \o <<Semi>>
     [] s.k = "ret" ->
          <<Kw("RETURN")>> \o (IF IsNilNode(s.c[1]) THEN <<>> ELSE MarkFirst(RenderE(s.c[1], 1, r, CL), "nonl")) \o <<Semi>>
-    [] s.k = "blk" -> <<Kw("LBRACE")>> \o RenderSeq(s.c, 1, red, CL) \o <<Kw("RBRACE")>>
+    [] s.k = "blk" -> <<Kw("LBRACE")>> \o RenderSeq(s.c, 1, red, CL) \o <<[Kw("RBRACE") EXCEPT !.bc = TRUE]>>
     [] s.k = "fdecl" ->
          <<Kw("FUNCTION"), Tk("IDENT", s.c[1].op), Kw("LPAREN")>> \o RenderList(s.c[2].c, FALSE, CL)
          \o <<Kw("RPAREN")>> \o RenderS(s.c[3], red, CL)
@@ -260,6 +260,15 @@ LayoutFrom(ts, j, sep, brk) ==
                      \/ (sep \in {2, 3} /\ t.sb)
        IN IF sep = 2 /\ t.opt THEN LayoutFrom(ts, j + 1, sep, brk)
           ELSE <<[ty |-> t.ty, lit |-> t.lit, nl |-> nlHere, ok |-> TRUE]>> \o LayoutFrom(ts, j + 1, sep, brk)
+
+\* like SepOK, but a statement may also begin with `(` or `[` after a line break (smart-semicolon
+\* mode cuts there)
+SepOKSmart(ts) ==
+  \A j \in 1..Len(ts) :
+     (ts[j].opt /\ j < Len(ts)) =>
+        LET nx == ts[j + 1] IN
+        \/ nx.ty \in {"RBRACE", "ELSE", "LPAREN", "LBRACKET"}
+        \/ ~ContinuesAcrossNewline(nx.ty) /\ ~nx.nonl
 
 \* the laid-out token list, closed by EOF
 Layout(ts, sep, brk) ==
@@ -350,5 +359,44 @@ C02_Failures(toks, res, expect) ==
   (IF Len(res.errors) = 0 /\ ~res.err THEN {} ELSE {"subset_program_rejected"})
   \cup (IF Strip(res.tree) = expect THEN {} ELSE {"tree_differs_from_ecmascript"})
   \cup (IF Len(res.errors) > 0 \/ (C02_Yield(toks, res.tree) /\ C02_WF(res.tree)) THEN {} ELSE {"yield_or_levels"})
+
+---------------------------------------------------------------------------
+(* The mode contract of C13 on REAL results.  rec = [kind, want, toks (real tokens of the   *)
+(* input), r00, r10, r01, r11 (strict/tolerant x default/smart: [tree, nerr, err]), ra      *)
+(* (default-mode result on the input with `;` put in front of every line-leading `(`/`[`)]  *)
+C13_LLB(toks) == \E j \in 1..Len(toks) : toks[j].nl /\ toks[j].ty \in {"LPAREN", "LBRACKET"}
+SameRes(a, b) == a.tree = b.tree /\ a.nerr = b.nerr /\ a.err = b.err
+C13_Failures(rec) ==
+  LET llb == C13_LLB(rec.toks)
+      strictOK == rec.r00.nerr = 0 /\ ~rec.r00.err
+  IN
+  \* (a) on every program strict mode accepts, tolerant mode returns the identical tree, no errors
+  (IF strictOK => SameRes(rec.r10, rec.r00) THEN {} ELSE {"tolerant_differs_on_accepted_program"})
+  \* (c) smart = default unless a `(` / `[` starts a line ...
+  \cup (IF llb \/ (SameRes(rec.r01, rec.r00) /\ SameRes(rec.r11, rec.r10)) THEN {} ELSE {"smart_differs_without_line_leading_bracket"})
+  \*     ... and then exactly as if a semicolon preceded it
+  \cup (IF ~llb \/ rec.ra.nerr > 0 \/ rec.ra.err \/ SameRes(rec.r01, rec.ra) THEN {} ELSE {"smart_is_not_default_with_semicolon"})
+  \cup (IF rec.kind = "smart" => (rec.r01.nerr = 0 /\ ~rec.r01.err /\ Strip(rec.r01.tree) = rec.want)
+        THEN {} ELSE {"smart_loses_line_leading_bracket_statement"})
+  \* (b) tolerant mode accepts, keeping every complete statement, fused statements and open blocks
+  \cup (IF (rec.kind \in {"fuse", "open"} /\ ~strictOK) =>
+            (rec.r10.nerr = 0 /\ ~rec.r10.err /\ Strip(rec.r10.tree) = rec.want
+             /\ (llb \/ (rec.r11.nerr = 0 /\ Strip(rec.r11.tree) = rec.want)))
+        THEN {} ELSE {"tolerant_" \o rec.kind})
+  \* a subset program is accepted by strict mode with the ECMAScript tree (C02, repeated here so
+  \* that the mode comparison is not vacuous)
+  \cup (IF rec.kind = "same" => (strictOK /\ Strip(rec.r00.tree) = rec.want) THEN {} ELSE {"strict_rejects_subset_program"})
+
+---------------------------------------------------------------------------
+(* C12 on a REAL strict-mode result for a corrupted text that reference parsers reject:      *)
+(* rec = [intact (index into toks of the last intact token before the corruption, 0: none), *)
+(*        toks (real tokens with sl, sc), errors (real, with sl, sc)]                        *)
+PosGE(l1, c1, l2, c2) == l1 > l2 \/ (l1 = l2 /\ c1 >= c2)
+C12_Failures(rec) ==
+  IF Len(rec.errors) = 0 THEN {"malformed_program_accepted"}
+  ELSE IF rec.intact = 0 \/ rec.intact > Len(rec.toks) THEN {}
+  ELSE LET e == rec.errors[1]
+           k == rec.toks[rec.intact]
+       IN IF PosGE(e.sl, e.sc, k.sl, k.sc) THEN {} ELSE {"first_error_before_last_intact_token"}
 
 =============================================================================
